@@ -297,14 +297,20 @@ class Axis(GetSetDelAttrMixin, AbstractAxis):
         elif other.values.size == 0:
             return self
 
-        def _same_slope(a, b):
-            " both decreasing or both increasing "
-            return (a[-1]>=a[0])==(b[-1]>=b[0])
+        def _slope(a):
+            " True: increasing, False: decreasing, None: a single label has no direction "
+            return None if a.size < 2 else bool(a[-1]>=a[0])
 
-        if consistent_kinds and self.is_monotonic() and other.is_monotonic() and _same_slope(self.values, other.values):
+        slope = slope_other = None
+        if consistent_kinds and self.is_monotonic() and other.is_monotonic():
+            slope, slope_other = _slope(self.values), _slope(other.values)
+            if slope is None:
+                slope = slope_other # (follow the other axis)
+
+        if consistent_kinds and self.is_monotonic() and other.is_monotonic() and slope_other in (None, slope):
             # join two sorted axes
             joined = np.union1d(self.values, other.values)
-            if self.values[-1] <= self.values[0]: # decreasing !
+            if slope is False: # decreasing !
                 joined = joined[::-1]
 
         else:
